@@ -45,6 +45,11 @@ fn corpus() -> Vec<Proj> {
         ("users.rs", format!("{}{}#[tauri::command]\npub fn users(f: Filter) -> u32 {{ 0 }}\n", HDR, st("Filter", &[("name", "String")]))),
         ("orders.rs", format!("{}{}#[tauri::command]\npub fn orders(f: Filter) -> u32 {{ 0 }}\n", HDR, st("Filter", &[("min_total", "u32"), ("status", "String")]))),
     ]});
+    // types defined in inline modules and referred to by path
+    v.push(Proj { name: "inline_modules", files: vec![
+        ("lib.rs", format!("{}pub mod models {{\nuse serde::{{Serialize, Deserialize}};\n{}pub mod deep {{\nuse serde::{{Serialize, Deserialize}};\n{}}}\n}}\n{}#[tauri::command]\npub fn get(o: Outer) -> models::Inner {{ todo!() }}\n",
+            HDR, st("Inner", &[("id", "u32")]), st("Deep", &[("inner", "super::Inner")]), st("Outer", &[("inner", "models::Inner"), ("deep", "Option<models::deep::Deep>"), ("list", "Vec<crate::models::Inner>")]))),
+    ]});
     // events in every documented placement
     v.push(Proj { name: "events", files: vec![
         ("ev.rs", format!("{}use tauri::Emitter;\n{}\n#[tauri::command]\npub async fn run(app: tauri::AppHandle, window: tauri::Window, flag: bool) -> Result<(), String> {{\n\
